@@ -37,7 +37,7 @@ func init() { sim.Register(c14{}) }
 
 func (c14) ID() string { return "C14" }
 
-var c14Types = []string{gen.TOpen2, gen.TOpen3, gen.TEditions, gen.TOpaque, gen.TLazyNode, gen.TMixedOpq, gen.TExt2, gen.THybrid}
+var c14Types = []string{gen.TOpen2, gen.TOpen3, gen.TEditions, gen.TOpaque, gen.TLazyNode, gen.TMixedOpq, gen.TExt2, gen.THybrid, "pbsim.fx.AfterOneof", "opaque.goproto.proto.test3.TestAllTypes"}
 
 func (c14) Gen(r *sim.Rng, tier string) *scn.Scn {
 	s := &scn.Scn{P: map[string]int64{}, NoDryRun: true}
